@@ -58,6 +58,9 @@ def build(seed, prop, idx, o=None):
     if rng.random() < 0.3:
         ids = list(el.pre.geographic_unit_fips)
         mp["unit_blocklist"] = [ids[i] for i in rng.permutation(len(ids))[: int(rng.integers(1, 4))]]
+        missing = sorted(f for f, s_ in status.items() if s_ == "missing")
+        if missing and rng.random() < 0.6:
+            mp["unit_blocklist"].append(missing[0])
     if rng.random() < 0.08 and el.meta["n_states"] > 1:
         mp["postal_code_blocklist"] = [gen.STATES[int(rng.integers(0, el.meta["n_states"]))]]
     if rng.random() < 0.5:
